@@ -250,6 +250,7 @@ func checkC20(c *Ctx) {
 	c.Check(sc, "EFF-R/format", "scratch:formatWriter", token.NoPos, "formatWriter must be a scratch type (no allocation site escapes the Format call)")
 	ruleFmtEsc(c)
 	ruleFmtQuote(c)
+	ruleFmtIndent(c)
 }
 
 // errChain: see rule WRITE-GUARD (helper mode).
